@@ -48,6 +48,62 @@ def _first_cfg(fn, stmt):
     return best
 
 
+def _gzip_traces(ctx):
+    """The zlib wrappers executed abstractly with the library hooked: when inflate()/deflate() is entered the stream
+    holds exactly the caller's (src, src_size, dst, dst_capacity); the wrapper ends the stream on every path and
+    reports total_out on success. Independent of how the stream is filled (assignments, initialiser, helper,
+    grouping struct). Returns the names it decided (either way); the others fall back to the assignment rule."""
+    from ..rules import sem
+    from ..rules.skeleton import Ptr, U
+    P = ctx.P
+    decided = set()
+    if "z_stream_s" not in P.records:
+        return decided
+    zo = sem.field_offsets(P, "z_stream_s")
+    for fname, init, runf, endf, extra in (("carquet_gzip_decompress", "inflateInit2_", "inflate", "inflateEnd", []),
+                                           ("carquet_gzip_compress", "deflateInit2_", "deflate", "deflateEnd", [6])):
+        f = P.fn_opt(fname, GZ)
+        if f is None:
+            continue
+        key_ = "wrapper-capacity|%s:%s" % (GZ, fname)
+        what_ = "%s enters the library with exactly (src, src_size) as input and (dst, dst_capacity) as output window, and reports total_out" % fname
+        seen = {}
+
+        def h_init(ev, a, it):
+            ev.append(("init",))
+            return 0
+
+        def h_run(ev, a, it):
+            p = a[0]
+            if not isinstance(p, Ptr) or not isinstance(p.off, int):
+                raise sem.Inconclusive("library entered with an untracked stream")
+            seen["win"] = tuple(it.heap.get((p.base, p.off + zo[m])) for m in ("next_in", "avail_in", "next_out", "avail_out"))
+            it.heap[(p.base, p.off + zo["total_out"])] = 77
+            ev.append(("run",))
+            return 1            # Z_STREAM_END
+
+        def h_end(ev, a, it):
+            ev.append(("end",))
+            return 0
+        try:
+            ret, ev, heap = sem.run(P, f, [Ptr("src", 0, 1), 111, Ptr("dst", 0, 1), 222, Ptr("out", 0, 8)] + extra,
+                                    heap0={}, hooks={init: h_init, runf: h_run, endf: h_end}, single=True, max_forks=8, budget=50000)
+        except (sem.Inconclusive, KeyError) as ex:
+            continue            # fall back to the assignment rule
+        win = seen.get("win")
+        if win is None or any(x is None or x is U for x in win):
+            continue
+        decided.add(fname)
+        ni, ai_, no, ao = win
+        okw = isinstance(ni, Ptr) and (ni.base, ni.off) == ("src", 0) and ai_ == 111 and \
+            isinstance(no, Ptr) and (no.base, no.off) == ("dst", 0) and ao == 222
+        oko = ret == 0 and heap.get(("out", 0)) == 77 and [e[0] for e in ev if e[0] in ("init", "run", "end")] == ["init", "run", "end"]
+        ctx.ob("R5.agree", key_, P.where(f.body), what_, okw and oko,
+               "stream at entry: next_in=%s avail_in=%s next_out=%s avail_out=%s; returns %s, *dst_size=%s, calls %s" % (
+                   ni, ai_, no, ao, ret, heap.get(("out", 0)), [e[0] for e in ev if e[0] in ("init", "run", "end")]))
+    return decided
+
+
 def run(ctx):
     P = ctx.P
     ctx.clause("C09.1 too-small destination refused before any write; wrappers pass capacity through")
@@ -119,6 +175,7 @@ def run(ctx):
                "%s: the capacity test against %s dominates all %d stores through dst" % (fname, bound, len(stores)),
                not bad, "not dominated: %s" % [P.where(b) for b in bad[:3]])
     # wrappers
+    gz_decided = _gzip_traces(ctx)
     for file_, fname, lib, ai in ((GZ, "carquet_gzip_compress", None, None), (GZ, "carquet_gzip_decompress", None, None),
                                    (ZS, "carquet_zstd_compress", "ZSTD_compress", 1),
                                    (ZS, "carquet_zstd_decompress", "ZSTD_decompressDCtx", 2)):
@@ -151,6 +208,8 @@ def run(ctx):
                     vs.append(verdict(c.args()[1], cap))
         key_ = "wrapper-capacity|%s:%s" % (file_, fname)
         what_ = "%s gives the library exactly dst / dst_capacity as its output window" % fname
+        if fname in gz_decided:
+            continue        # decided by the trace of the wrapper (what the stream holds when the library is entered)
         if "bad" in vs:
             ctx.bad("R5.agree", key_, P.where(f.body), what_, "the output window is set from another parameter or a constant")
         elif "unknown" in vs:
